@@ -164,6 +164,28 @@ Fixpoint run (blocked : list string) (s : st) (h : list op) : st * list bool :=
       let '(s2, oks) := run blocked s1 r in (s2, ok :: oks)
   end.
 
+(** baseapp.runMsgs: the messages of a tx run in order on a branch of the state … *)
+Fixpoint run_msgs (blocked : list string) (s : st) (tx : list op) : option st :=
+  match tx with
+  | [] => Some s
+  | o :: r => match step blocked s o with Some s' => run_msgs blocked s' r | None => None end
+  end.
+
+(** … that is written back only when every message succeeded (a tx without messages is refused) *)
+Definition deliver_tx (blocked : list string) (s : st) (tx : list op) : st * bool :=
+  match tx with
+  | [] => (s, false)
+  | _ => match run_msgs blocked s tx with Some s' => (s', true) | None => (s, false) end
+  end.
+
+Fixpoint run_txs (blocked : list string) (s : st) (h : list (list op)) : st * list bool :=
+  match h with
+  | [] => (s, [])
+  | tx :: r =>
+      let '(s1, ok) := deliver_tx blocked s tx in
+      let '(s2, oks) := run_txs blocked s1 r in (s2, ok :: oks)
+  end.
+
 Definition sender_of (o : op) : string :=
   match o with
   | Create s _ | Mint s _ _ _ _ | Burn s _ _ _ _ | ChangeAdmin s _ _ _ | SetMeta s _ _ | BurnNative s _ _ _ => s
